@@ -1,6 +1,7 @@
 (* C01 — table obligations (closed computations on the regenerated Tables.v) and the lemmas of
    ReqProofs.v instantiated with them. *)
 From G01 Require Import ReqE2E ViaProofs ReqProofs Ob18.
+From G16 Require C16.
 
 (* the source's hop-by-hop list is the documented one (Connection, Keep-Alive, Proxy-Authenticate,
    Proxy-Authorization, Proxy-Connection, TE, Trailer, Transfer-Encoding, Upgrade), in net/http's spelling *)
@@ -22,6 +23,15 @@ Lemma ob_handle_order : handle_order = fixed_handle_order.
 Proof. vm_compute. reflexivity. Qed.
 (* forwarder sets AllowHTTP (no forced https inside TLS listeners) *)
 Lemma ob_allow_http : proxy_allow_http = true.
+Proof. vm_compute. reflexivity. Qed.
+
+(* setBasicAuth treats the client as having sent no Authorization exactly when the key is absent *)
+Lemma ob_basic_auth_tests_key_presence : basic_auth_tests_key_presence = true.
+Proof. vm_compute. reflexivity. Qed.
+(* command/run: one request modifier, connect rules for CONNECT, request rules otherwise; rules applied in order *)
+Lemma ob_header_rules_dispatch_by_method : header_rules_dispatch_by_method = true.
+Proof. vm_compute. reflexivity. Qed.
+Lemma ob_header_rules_applied_in_order : header_rules_applied_in_order = true.
 Proof. vm_compute. reflexivity. Qed.
 
 (* readRequest replaces the header deadline by the whole-request deadline (none when ReadTimeout is 0) once the head is read *)
@@ -49,6 +59,14 @@ Definition f01_upgrade := upgrade_readded ob_hop_list ob_flat_stack ob_xff_reads
 
 Definition f01_model_satisfies_oracle := model_satisfies_oracle ob_hop_list ob_flat_stack ob_xff_reads_all_lines
   ob_xfwd_fill_reads_all_lines ob_via_reads_all_lines ob_via_loop_status ob_via_sets_close ob_via_join_sep ob_proto_table status_400.
+
+Definition f01_rules_and_credentials := rules_and_credentials_applied ob_flat_stack ob_xff_reads_all_lines
+  ob_xfwd_fill_reads_all_lines ob_via_reads_all_lines.
+Definition f01_site_auth cfg h k := site_auth_pointwise cfg h k ob_basic_auth_tests_key_presence.
+(* base64 of the model on a known vector (RFC 4648) and on a credential *)
+Lemma b64_vectors : b64 (b "foobar") = b "Zm9vYmFy" /\ b64 (b "fooba") = b "Zm9vYmE=" /\ b64 (b "foob") = b "Zm9vYg==" /\
+  basic_value (b "site") (b "secret") = b "Basic c2l0ZTpzZWNyZXQ=".
+Proof. vm_compute. repeat split. Qed.
 
 Lemma f01_user_agent_never_default tag r r' : modify_request tag r = Passed r' -> raw_get k_ua (q_hdr r') <> None.
 Proof. intro H. rewrite (f01_user_agent tag r r' H). destruct (raw_get k_ua (after_removal (q_hdr r))); discriminate. Qed.
